@@ -4,7 +4,7 @@ from harness import gen_text as G
 
 class C19(Prop):
     id = 'C19'
-    theorems = ['C17.hist_comment', 'C17.observation_is_pure', 'C17.step2_frame', 'C19.files_code_independent', 'C19.code_ignores_leading_comment', 'C19.line_spec', 'C19.prefix_spec', 'C19.render_spec', 'C19.starts_with_slashes',
+    theorems = ['C17.hist_comment', 'C17.observation_is_pure', 'C17.step2_frame', 'C17.clone_equal', 'C17.clone_independent', 'C19.files_code_independent', 'C19.code_ignores_leading_comment', 'C19.line_spec', 'C19.prefix_spec', 'C19.render_spec', 'C19.starts_with_slashes',
                 'C19.content_rendering', 'C19.length_preserved']
     proof_modules = ['DznProofs.C19', 'DznProofs.C19Files', 'DznProofs.C17Hist']
     level_rule = ('hostile comment text: every Python line separator, leading/trailing whitespace, '
